@@ -17,6 +17,18 @@ Theorem C13_schema_roundtrip : forall cap sch vs rest c al,
 Proof. exact (dec_schema_exact gen_alloc_max gen_alloc_max_ok). Qed.
 Print Assumptions C13_schema_roundtrip.
 
+(** What goes on the wire: bytes only (given byte payloads), and exactly the
+    fixed part plus the payload per field - no padding, no hidden bytes. *)
+Theorem C13_encoded_is_bytes : forall sch vs,
+  Forall payload_is_bytes vs -> is_bytes (enc_schema sch vs).
+Proof. exact enc_schema_is_bytes. Qed.
+Print Assumptions C13_encoded_is_bytes.
+
+Theorem C13_field_size : forall k v,
+  wf_value k v -> lenN (enc_value k v) = wire_size k v.
+Proof. exact enc_value_size. Qed.
+Print Assumptions C13_field_size.
+
 (** A body cut at any point is an error, never a value. *)
 Theorem C13_schema_truncated : forall cap sch vs p c al,
   Forall2 wf_value sch vs -> strict_prefix p (enc_schema sch vs) ->
